@@ -18,7 +18,7 @@ FUNCTIONS = [Cluster.provision_batch_resources, Cluster.release_batch_resources,
              Cluster._update_available_resources, Cluster.run, Task.do_work]
 META = {
     'bounds': {'C02.machines': 3, 'C02.history_depth': '3 (quick) / 4 (thorough)', 'C02.reservation_names': 2,
-               'C02.ops': OPS, 'C02.task_duration': 2, 'C02.one_step_pool_states': '5^3 pool vectors by prelude'},
+               'C02.ops': OPS, 'C02.task_duration': 2, 'C02.one_step_pool_states': '6^3 pool vectors by prelude (incl. a task running on a machine of its own reservation)'},
     'outside_bounds': ['clusters > 3 machines', 'histories deeper than the stated depth (covered only through the one-step inductive harness H2)',
                        'num_provisioned_obs after two direct provision calls for the same name (outside the statement)'],
     'stubs': ['FakeCfg instead of JSON config (3 machines, cpu 10, bw 10)'],
@@ -135,7 +135,7 @@ def step_tag(p1, p2, x, y):
 
 def step(p1: int, p2: int, x: int, y: int) -> bool:
     """
-    pre: 0 <= p1 <= 4 and 0 <= p2 <= 4
+    pre: 0 <= p1 <= 5 and 0 <= p2 <= 5
     pre: 0 <= x <= 2 and 0 <= y <= 2
     post: _
     """
@@ -165,7 +165,7 @@ def shards(tier, prop):
                     for o4 in R:
                         out.append({'fn': 'hist4', 'pin': {'o1': o1, 'o2': o2, 'o3': o3, 'o4': o4}, 'cond_timeout': 600, 'path_timeout': 30})
     for op in range(4):
-        for p0 in R:
+        for p0 in range(6):
             out.append({'fn': 'step', 'pin': {'op': op, 'p0': p0}, 'cond_timeout': 120 if tier == 'quick' else 600, 'path_timeout': 20})
     out.append({'fn': 'hist3', 'pin': {'o1': 0, 'o2': 3, 'o3': 4}, 'cond_timeout': 30, 'twin': True})
     return out
